@@ -27,7 +27,8 @@ CHECKS: dict[str, tuple[str, str, str]] = {
         'Theorems (GProofs/C04.lean): the fromevent/candidate state machine, transcribed block by block, on the events of ANY '
         'history in default mode equals "consecutive distinct visited sites" for every minimal residence (default_eq_spec, '
         'jumpsOfHistory_default through the C03 table theorem); for ARBITRARY event lists (inner-site mode included) a larger '
-        'minimal residence yields a sub-multiset of jumps (minres_monotone). Tie: exhaustive histories x residences, exact incl. order.',
+        'minimal residence yields a sub-multiset of jumps (minres_monotone). The loop body is REGENERATED from jumps.py on every run (GGen/JumpStep, statement by statement) and proved to '
+        'refine the hand-written machine (C04Gen.jumpStep_refines, runGen_refines), so the theorems are about what the code says now. Tie: exhaustive histories x residences, exact incl. order.',
         'second clause proved as strict_subset_default (GProofs/C04Strict.lean): for inner histories with inner_t in {-1, site_t} every reported '
         'jump is a default jump (origin, destination, start time) and matches the recorded states; trusted: pandas groupby/iterrows order',
         '4/C04',
@@ -46,7 +47,8 @@ CHECKS: dict[str, tuple[str, str, str]] = {
         'Theorems (GProofs/C12.lean): the pair scan reports (a,b) iff a precedes b in the sorted table and the pair satisfies the three '
         'conditions (scan_iff), the predicate is symmetric, no pair twice or in both orders, sorting only permutes rows, '
         'solo + collective = total, the second guard is dead under the stop-time order; break_counterexample documents D9. '
-        'Tie: random jump tables incl. long overlapping transits on triclinic cells, exact incl. order; distances from the certified minimum image.',
+        'Tie: random jump tables incl. long overlapping transits on triclinic cells, exact incl. order; distances from the certified minimum image. '
+        'The guard chain of the pair loop is REGENERATED from collective.py on every run (GGen/PairGuard) and proved to be what the model executes (C12Gen.inner_cons_gen, no guard may break).',
         'defect D9 (early break) repaired by fix commit a711a25; float comparison dist < max_dist kept 1e-6 away from every site distance; '
         'trusted: stable two-key pandas sort, pymatgen minimum-image distances (cross-checked per case)',
         '4/C12',
@@ -88,7 +90,7 @@ CHECKS.update({
         'every grid size (roundtrip). Tie: counts exact vs model and vs exact floor on dyadic and non-dyadic coordinate grids, pool lattices x 6 resolutions; '
         'float round trip for every voxel of every grid size up to 2000 (quick) / 20000 (thorough).',
         'IEEE: a coordinate within 2^-50 of a non-representable boundary k/n is only checked for conservation; cases with L/res within 1e-9 of an integer are skipped; '
-        'the float round trip is enumerated, not proved (the theorem is over Q)',
+        'the float round trip is enumerated for every index up to the bound AND proved for any rounding operator with relative error <= u (C08Fl.roundtrip_fl: every index below 2^50 for binary64)',
         '4/C08',
     ),
     'C09': (
@@ -185,8 +187,8 @@ CHECKS.update({
         'correction returns the very same state (idempotent); algebraic core mean_sub_mean, minImg1_small_shift; small_steps_needed shows '
         'the precondition is necessary. Tie: exact on dyadic inputs (1,2,4 reference atoms), 1e-12 otherwise; Element and Species inputs; all selection forms.',
         'first_frame_unchanged is proved for frames of 3*atoms coordinates (first_frame_unchanged_partial; the unrestricted statement is false for malformed frame '
-        'lengths, counterexample in the file); rigid-drift invariance and floating = complement of fixed are checked on the implementation '
-        '(metamorphic, exact) but have no separate theorem; SmallSteps is a domain precondition; defect D10 repaired by a fix commit',
+        'lengths, counterexample in the file); rigid-drift invariance is proved (C13Rigid.rigid_drift_invariant, under SmallRaw); floating = complement of fixed is checked on the implementation '
+        '(all selection forms, exact); SmallSteps is a domain precondition; defect D10 repaired by a fix commit',
         '4/C13',
     ),
     'C15': (
